@@ -20,8 +20,12 @@ RULE = ("x in {Scalar, Array over list / tuple / ndarray, lengths 0..5} with a s
         "ndarray subclass views with __array_priority__ 1 / 50; same length, length 1, other length, empty); all ten forms "
         "k*x x*k x/k x//k x+k k+x x-k k-x k/x k//x; zero divisors in float slots; a malformed stream (str, None, list, "
         "Scalar with ndarray, Scalar with Array); SEQUENCES of 2-3 database-computed operations in one process on operands of "
-        "one quantity type and unit but different categories, every step compared with its full quantity; decimal-looking pairs (1.0, 0.1) ... for x // k and k // x.  distinct = distinct (form, operands); non-trivial = the real code "
-        "returned a barril object")
+        "one quantity type and unit but different categories, every step compared with its full quantity; HISTORIES: 1-2 earlier "
+        "operations on objects of a quantity q (any number form, x op y with another barril object, a malformed operand; known-finding "
+        "results and errors included) followed by 2-4 later number operations on q, on the SAME objects and on new ones, Scalars "
+        "and Arrays of every container kind, each step predicted by the (stateless) model on its own; Arrays whose `values` is a "
+        "bare number; the legacy `x.__rdiv__(k)` called directly; decimal-looking pairs (1.0, 0.1) ... for x // k and k // x.  "
+        "distinct = distinct (form, operands); non-trivial = the real code returned a barril object")
 EXHAUSTIVE = {"quick": False, "thorough": False}
 ASSUMPTIONS = [
     "float results stay within 4*K*eps*M (K=64; eps=2^-24 when a float32 takes part) of the exact model: checked, not proved",
@@ -38,6 +42,12 @@ ASSUMPTIONS = [
     "(__array_priority__): a parameter of the model (`numpyDefers`), observed by the correspondence only",
     "derived-unit matching with two units of one quantity type is engine Alg's subject (C03/C04); here it is covered by "
     "the correspondence and excluded from the number theorems by the hypothesis `Normal`",
+    "the model has no shared mutable state: that an operation leaves nothing behind (interned quantities, caches) is what the "
+    "history cases observe - one or two earlier operations, then later ones on old and new objects, all in one process",
+    "the oracle's verdict on a failing case is taken in a fresh Python interpreter (subprocess), so that a replay names a "
+    "complete input; failures of the known-finding class are not re-evaluated",
+    "history steps `x / y`, `x // y` between two barril objects avoid quantities with offset units (a divisor matched through "
+    "an offset can cancel to exactly 0.0 in floats for tiny gauge amounts: numerical noise, engine Alg's subject)",
 ]
 
 FORMS = [("mul", "kx"), ("mul", "xk"), ("div", "xk"), ("floordiv", "xk"), ("sum", "xk"), ("sum", "kx"),
@@ -194,6 +204,51 @@ def _gen_seq(ctx, salt, n):
             yield dict(op="seq", steps=[model_line(st) for st in steps], _t=dict(steps=[st["_t"] for st in steps]))
 
 
+def _gen_odd(ctx, salt, n):
+    """(1) Arrays whose `values` is a bare number (`Array.CreateWithQuantity(q, values=3.0)`; nothing checks the
+    container): `_ValueGenerator` iterates neither side, the result is a list Array of one value; with an ndarray
+    the vectorised branch; with a second Array `len()` of the number is a TypeError.  Quantities: simple, normal
+    derived, empty (the hand-built two-unit form belongs to the known finding and is kept for real containers).
+    (2) the legacy reflected operator called directly, `x.__rdiv__(k)`: k a number, an ndarray, malformed, a
+    Scalar, an Array; x over every container kind."""
+    rng = ctx.fresh_rng("C09odd" + salt)
+    for i in range(n):
+        q = rng.choice([oc.simple_q(ctx, rng), oc.simple_q(ctx, rng), oc.derived_q(ctx, rng, "normal"), []])
+        if not oc.buildable(oc.scalar_spec(q, 1.0)):
+            continue
+        v = oc.rand_value(rng, nonzero=rng.random() < 0.95)
+        x0 = dict(t="array0", q=q, x=(int(v) or 3) if (i % 7 == 0) else float(v).hex())
+        r = i % 10
+        if r < 6:
+            f, side = FORMS[i % len(FORMS)] if r < 4 else rng.choice(FORMS)
+            ty = rng.choice(oc.NUM_TYPES)
+            yield _case(f, side, x0, _k(rng, ty, allow_zero=ty in ("float", "f64")))
+        elif r == 6:
+            f, side = rng.choice(FORMS)
+            dt = rng.choice(["f64", "f64", "i64"])
+            yield _case(f, side, x0, oc.nd_spec(dt, oc.rand_values(rng, rng.choice([0, 1, 2, 3]), nonzero=True, ints=(dt == "i64"))))
+        elif r == 7:
+            other = rng.choice([_x(rng, oc.simple_q(ctx, rng), rng.choice(["list", "tuple", "nd", "scalar"]), rng.choice([0, 1, 2]), False, True),
+                                dict(t="array0", q=oc.simple_q(ctx, rng), x=float(oc.rand_value(rng, nonzero=True)).hex()),
+                                dict(t="junk", w=rng.choice(["none", "list", "npbool"]))])
+            f = rng.choice(oc.OPS)
+            yield oc.binop_case(f, x0, other) if rng.random() < 0.5 else oc.binop_case(f, other, x0)
+        else:
+            shape = rng.choice(["list", "tuple", "nd", "list"])
+            x = x0 if rng.random() < 0.15 else _x(rng, q, shape, rng.choice([0, 1, 2, 3]), False, nonzero=rng.random() < 0.95)
+            w = rng.random()
+            if w < 0.55:
+                k = _k(rng, rng.choice(oc.NUM_TYPES), allow_zero=False)
+            elif w < 0.75:
+                n_ = len(x.get("xs", [0]))
+                k = oc.nd_spec("f64", oc.rand_values(rng, rng.choice([n_, n_, 1, n_ + 1]), nonzero=True))
+            elif w < 0.85:
+                k = dict(t="junk", w=rng.choice(["none", "str", "list", "npbool"]))
+            else:
+                k = _x(rng, oc.simple_q(ctx, rng), rng.choice(["scalar", shape]), len(x.get("xs", [0])), False, True)
+            yield oc.rdiv_case(x, k)
+
+
 _HIST_SHAPES = ["mixed", "mixed", "affine-mixed", "twin", "normal", "mixed", "zero", "simple", "affine", "mixed"]
 _HIST_TYPES = ["int", "float", "f64", "i64"]
 
@@ -248,6 +303,10 @@ def _gen_hist(ctx, salt, n):
                 else:
                     y_ = oc.array_spec(q2, rng.choice(oc.KINDS), oc.rand_values(rng, len(x_["xs"]), nonzero=True))
                 f = rng.choice(oc.OPS)
+                if f in ("div", "floordiv") and any(u in ctx.affine for c_, u, e_ in list(q) + list(q2)):
+                    # a divisor matched through a unit with an offset can cancel to exactly 0.0 in floats (tiny gauge
+                    # amounts): numerical noise of engine Alg's subject, not a history effect
+                    f = rng.choice(["sum", "sub", "mul"])
                 steps.append(oc.binop_case(f, x_, y_) if rng.random() < 0.7 else oc.binop_case(f, y_, x_))
             else:
                 x_ = x_operand(False)
@@ -269,11 +328,13 @@ def cases(ctx):
         yield from _gen_hist(ctx, "q", 900)
         yield from _gen_seq(ctx, "q", 600)
         yield from _gen(ctx, "q", 30, 25, 600)
+        yield from _gen_odd(ctx, "q", 1500)
         yield from _gen_floor(ctx, "q", 600)
     else:
         yield from _gen_hist(ctx, "t", 9000)
         yield from _gen_seq(ctx, "t", 6000)
         yield from _gen(ctx, "t", 200, 120, 5000)
+        yield from _gen_odd(ctx, "t", 15000)
         yield from _gen_floor(ctx, "t", 6000)
 
 
@@ -297,7 +358,7 @@ def impl(c, ctx):
                 oc.count(ctx, "history step: " + oc.branch_key(st, o))
         return dict(outs=outs)
     t = c["_t"]
-    io = oc.run_binop(t["f"], t["a"], t["b"])
+    io = oc.run_rdiv(t["x"], t["k"]) if c["op"] == "rdiv" else oc.run_binop(t["f"], t["a"], t["b"])
     oc.count(ctx, oc.branch_key(c, io))
     return io
 
@@ -371,7 +432,7 @@ def _oracle_here(c, ctx):
             return f_
         # only steps of the known-finding class fail: reported as such (the matcher looks at that step)
         return dict(first_known, no_other_step_fails=True) if first_known else None
-    if c.get("op") != "binop":
+    if c.get("op") not in ("binop", "rdiv"):
         return None
     return _oracle_binop(c, ctx, None)
 
@@ -390,22 +451,24 @@ def _oracle_binop(c, ctx, objs):
         return None
     xspec = b if _plain(a) else a
     xs = None
-    if _plain(a) != _plain(b) and xspec["t"] in ("scalar", "array"):
+    if _plain(a) != _plain(b) and xspec["t"] in _BARRIL:
         x0 = B if _plain(a) else A
-        xs = [x0.value] if xspec["t"] == "scalar" else list(x0.values)
+        # (an Array may hold a bare number as its `values`: one value)
+        xs = [x0.value] if xspec["t"] == "scalar" else [x0.values] if xspec["t"] == "array0" else list(x0.values)
     # the operation is executed in every case: inside a sequence it is part of the history of the later steps
     r, raised = None, None
     try:
         with warnings.catch_warnings():
             warnings.simplefilter("ignore")
             with np.errstate(all="ignore"):
-                r = oc.PYOP[f](A, B)
+                # (`x.__rdiv__(k)` called directly is judged as k / x)
+                r = B.__rdiv__(A) if c.get("op") == "rdiv" else oc.PYOP[f](A, B)
     except Exception as e:
         raised = e
     if _plain(a) == _plain(b):
         return None
     kspec, xspec, k_left = (a, b, True) if _plain(a) else (b, a, False)
-    if xspec["t"] not in ("scalar", "array"):
+    if xspec["t"] not in _BARRIL:
         return None
     if xspec["t"] == "scalar" and kspec["t"] == "nd":
         return None
@@ -415,6 +478,8 @@ def _oracle_binop(c, ctx, objs):
     if ks is not None and len(ks) != len(xs):
         return None  # numpy's broadcasting rules decide; not part of the property
     form = "%s %s %s" % (oc.render(a), oc.OPSIGN[f], oc.render(b))
+    if c.get("op") == "rdiv":
+        form = "(%s).__rdiv__(%s)" % (oc.render(b), oc.render(a))
     pairs = [((kk if k_left else v), (v if k_left else kk)) for v, kk in zip(xs, ks if ks is not None else [k] * len(xs))]
     if f in ("div", "floordiv") and any(float(d) == 0.0 for _n, d in pairs):
         return None
@@ -545,6 +610,7 @@ def _oracle_binop(c, ctx, objs):
     return None
 
 
+_BARRIL = ("scalar", "array", "array0")
 CLASS_MIXED = "array-with-number: quantity holds two different units of one quantity type"
 _EIGHT = {("mul", "kx"), ("mul", "xk"), ("div", "xk"), ("floordiv", "xk"), ("sum", "xk"), ("sum", "kx"),
           ("sub", "xk"), ("sub", "kx")}
@@ -620,7 +686,7 @@ def shrink(case, failure, ctx):
     i = failure["step"] - 1
     if i < 1 or i >= len(case["steps"]):
         return case, failure
-    for idx in [[j, i] for j in range(i)] + ([list(range(i + 1))] if i + 1 < len(case["steps"]) else []):
+    for idx in [[i]] + [[j, i] for j in range(i)] + ([list(range(i + 1))] if i + 1 < len(case["steps"]) else []):
         if len(idx) >= len(case["steps"]):
             continue
         c2 = _subseq(case, idx)
@@ -634,4 +700,5 @@ def search(ctx):
     yield from _gen_hist(ctx, "search", 600)
     yield from _gen_floor(ctx, "search", 300)
     yield from _gen_seq(ctx, "search", 400)
+    yield from _gen_odd(ctx, "search", 400)
     yield from _gen(ctx, "search", 12, 8, 0)
